@@ -131,6 +131,8 @@ type Proxy struct {
 	connsMu   sync.Mutex // protects connsWg.Add/Wait and conns from concurrent access
 	closeCh   chan bool
 	closeOnce sync.Once
+	ctx       context.Context //nolint:containedctx // BaseContext that is cancelled by Close.
+	cancel    context.CancelFunc
 }
 
 func (p *Proxy) init() {
@@ -175,6 +177,7 @@ func (p *Proxy) init() {
 		if p.BaseContext == nil {
 			p.BaseContext = context.Background()
 		}
+		p.ctx, p.cancel = context.WithCancel(p.BaseContext)
 
 		p.conns = make(map[net.Conn]struct{})
 		p.connsWg.Store(0)
@@ -244,6 +247,9 @@ func (p *Proxy) Close() error {
 			err = multierr.Append(err, e)
 		}
 	}
+
+	// Abort round trips of the closed connections, otherwise they are held until the upstream answers.
+	p.cancel()
 
 	return err
 }
